@@ -16,6 +16,7 @@ import contextlib
 import errno as _errno
 import json
 import os
+import re
 import socket
 import struct
 import subprocess
@@ -145,6 +146,140 @@ def _inodes_extend(fn):
     raise NotRecognised("get_all_inodes: neither update nor extend")
 
 
+def _handler_classes(h):
+    t = h.type
+    if t is None:
+        return ["BaseException"]
+    elts = t.elts if isinstance(t, ast.Tuple) else [t]
+    names = [extract.dotted(e) for e in elts]
+    if any("?" in n for n in names):
+        raise NotRecognised("except clause: %s" % ast.unparse(t))
+    return [n.split(".")[-1] for n in names]
+
+
+def _flat(stmts):
+    return [" ".join(ast.unparse(s).split()) for s in stmts]
+
+
+def _readlink_try(fn):
+    """the one `try:` of get_proc_inodes whose body is the readlink call"""
+    tries = [n for n in ast.walk(fn) if isinstance(n, ast.Try) and any(extract.calls_in(b, "readlink") for b in n.body)]
+    if len(tries) != 1 or len(extract.calls_in(fn, "readlink")) != 1:
+        raise NotRecognised("get_proc_inodes: %d try blocks around readlink" % len(tries))
+    t = tries[0]
+    if len(t.body) != 1 or t.finalbody:
+        raise NotRecognised("get_proc_inodes: shape of the try around readlink")
+    return t
+
+
+def _link_skip_classes(fn):
+    """classes of the handlers (before any `except OSError as err`) whose body is exactly `continue`"""
+    out = []
+    for h in _readlink_try(fn).handlers:
+        if h.name is not None:
+            if _handler_classes(h) != ["OSError"]:
+                raise NotRecognised("get_proc_inodes: named handler for %s" % _handler_classes(h))
+            continue
+        if _flat(h.body) != ["continue"]:
+            raise NotRecognised("get_proc_inodes: handler body %s" % _flat(h.body))
+        out += _handler_classes(h)
+    return out
+
+
+def _link_skip_errnos(fn):
+    """inside `except OSError as err:` — the X of every `if err.errno == errno.X: [debug(...);] continue`;
+    the handler must end in a bare `raise`; no such handler = no errno is stepped over"""
+    hs = [h for h in _readlink_try(fn).handlers if h.name is not None]
+    if not hs:
+        return []
+    if len(hs) != 1 or _handler_classes(hs[0]) != ["OSError"]:
+        raise NotRecognised("get_proc_inodes: named handlers")
+    h = hs[0]
+    if h is not _readlink_try(fn).handlers[-1]:
+        raise NotRecognised("get_proc_inodes: `except OSError` is not the last handler")
+    body = list(h.body)
+    if not body or _flat(body[-1:]) != ["raise"]:
+        raise NotRecognised("get_proc_inodes: `except OSError` does not end in `raise`")
+    out = []
+    for st in body[:-1]:
+        if not isinstance(st, ast.If) or st.orelse:
+            raise NotRecognised("get_proc_inodes: statement in `except OSError`: %s" % _flat([st]))
+        m = re.fullmatch(r"%s\.errno == errno\.(E[A-Z0-9]+)" % re.escape(h.name), ast.unparse(st.test))
+        if not m:
+            raise NotRecognised("get_proc_inodes: test %s" % ast.unparse(st.test))
+        inner = _flat(st.body)
+        if inner[-1:] != ["continue"] or any(not x.startswith("debug(") for x in inner[:-1]):
+            raise NotRecognised("get_proc_inodes: body of `if %s`: %s" % (ast.unparse(st.test), inner))
+        out.append(m.group(1))
+    return out
+
+
+def _all_skip_classes(fn):
+    """get_all_inodes: the `except (...): continue` around the get_proc_inodes call"""
+    tries = [n for n in ast.walk(fn) if isinstance(n, ast.Try)]
+    gpi = extract.calls_in(fn, "get_proc_inodes")
+    if len(gpi) != 1:
+        raise NotRecognised("get_all_inodes: %d calls of get_proc_inodes" % len(gpi))
+    inside = [t for t in tries if any(extract.calls_in(b, "get_proc_inodes") for b in t.body)]
+    if not tries and not inside:
+        return []                       # no try at all: nothing is caught
+    if len(tries) != 1 or len(inside) != 1 or inside[0].finalbody or inside[0].orelse:
+        raise NotRecognised("get_all_inodes: shape of the try around get_proc_inodes")
+    out = []
+    for h in inside[0].handlers:
+        if h.name is not None or _flat(h.body) != ["continue"]:
+            raise NotRecognised("get_all_inodes: handler %s: %s" % (_handler_classes(h), _flat(h.body)))
+        out += _handler_classes(h)
+    return out
+
+
+def _try_shape(fn, callee, what):
+    """[body statements…, 'except <classes>', handler statements…] of the single try whose body calls `callee`
+    and nothing but assignments; [] when no try encloses the call(s)"""
+    tries = [n for n in ast.walk(fn) if isinstance(n, ast.Try) and any(extract.calls_in(b, callee) for b in n.body)]
+    calls = extract.calls_in(fn, callee)
+    if not tries:
+        return ["no try around %d call(s) of %s" % (len(calls), callee)]
+    if len(tries) != 1:
+        raise NotRecognised("%s: %d try blocks around %s" % (what, len(tries), callee))
+    t = tries[0]
+    covered = sum(len(extract.calls_in(b, callee)) for b in t.body)
+    out = _flat(t.body) if covered == len(calls) else ["%d of %d calls of %s inside the try" % (covered, len(calls), callee)]
+    for h in t.handlers:
+        out.append("except " + ", ".join(_handler_classes(h)) + ("" if h.name is None else " as " + h.name))
+        out += _flat(h.body)
+    if t.orelse:
+        out += ["else"] + _flat(t.orelse)
+    if t.finalbody:
+        out += ["finally"] + _flat(t.finalbody)
+    return out
+
+
+def _decode_v6_handler(fn):
+    """decode_address: the handlers of the try around the AF_INET6 inet_ntop calls (the IPv4 calls are outside)"""
+    tries = [n for n in ast.walk(fn) if isinstance(n, ast.Try)]
+    if not tries:
+        return ["no try"]
+    if len(tries) != 1:
+        raise NotRecognised("decode_address: %d try blocks" % len(tries))
+    t = tries[0]
+    inside = [c for b in t.body for c in extract.calls_in(b, "inet_ntop")]
+    if not inside or any(ast.unparse(c.args[0]) != "socket.AF_INET6" for c in inside):
+        raise NotRecognised("decode_address: the try does not enclose exactly the AF_INET6 inet_ntop calls")
+    outside = [c for c in extract.calls_in(fn, "inet_ntop") if c not in inside]
+    if any(ast.unparse(c.args[0]) == "socket.AF_INET6" for c in outside):
+        raise NotRecognised("decode_address: an AF_INET6 inet_ntop call outside the try")
+    if any(extract.calls_in(b, "b16decode") for b in t.body):
+        raise NotRecognised("decode_address: b16decode moved inside the try")
+    out = []
+    for h in t.handlers:
+        out.append("except " + ", ".join(_handler_classes(h)) + ("" if h.name is None else " as " + h.name))
+        out += _flat(h.body)
+    if t.orelse or t.finalbody:
+        raise NotRecognised("decode_address: else/finally on the try")
+    return out
+
+
 def facts(snap, F):
     cache = {}
 
@@ -196,6 +331,21 @@ def facts(snap, F):
               lambda: L(_unpack_indices(extract.find_def(lin(), "process_unix", cls="NetConnections"),
                                         ["type_", "inode"], "process_unix"), extract.lean_nat),
               "process_unix: [number of tokens unpacked, index of type_, inode]")
+    LS = lambda xs: L(xs, extract.lean_str)      # noqa: E731
+    gpi = lambda: extract.find_def(lin(), "get_proc_inodes", cls="NetConnections")      # noqa: E731
+    F.try_add("linkSkipClasses", "List String", lambda: LS(_link_skip_classes(gpi())),
+              "get_proc_inodes: exception classes of the `except ...: continue` clauses around readlink")
+    F.try_add("linkSkipErrnos", "List String", lambda: LS(_link_skip_errnos(gpi())),
+              "get_proc_inodes, `except OSError as err`: the errno.X whose `if err.errno == errno.X:` ends in `continue`; the handler ends in `raise`")
+    F.try_add("allSkipClasses", "List String",
+              lambda: LS(_all_skip_classes(extract.find_def(lin(), "get_all_inodes", cls="NetConnections"))),
+              "get_all_inodes: exception classes of the `except (...): continue` around get_proc_inodes(pid)")
+    F.try_add("decodeV6Handler", "List String",
+              lambda: LS(_decode_v6_handler(extract.find_def(lin(), "decode_address", cls="NetConnections"))),
+              "decode_address: handlers of the try around the AF_INET6 inet_ntop calls (b16decode and the IPv4 calls are outside it)")
+    F.try_add("inetV6Try", "List String",
+              lambda: LS(_try_shape(extract.find_def(lin(), "process_inet", cls="NetConnections"), "decode_address", "process_inet")),
+              "process_inet: the try around the two decode_address calls, statement by statement")
 
 
 # ------------------------------------------------------------------------------ independent renderer (printf style)
